@@ -241,31 +241,22 @@ Variable o : opts.
 Variable M : Z.
 Variable cw : Z.
 Hypothesis HM : 0 <= M.
-Hypothesis Hcw : 0 <= cw.
-Hypothesis Hguides : o_indent_guides o = false.
-Hypothesis HWrap : forall line w pad, 0 <= w -> wrap_ok_b line w (wrapf line w pad) = true.
 Let ncw := zlen (show_Z M) + 2.
 Let gw := zlen (show_Z M) + 3.
 
-Lemma wrapped_ok l :
+(* the displayed line l (possibly carrying indent guides) shows the expected source line e *)
+Definition line_shows (e l : str) : Prop :=
   exists w ws, wrapped_lines wrapf o cw l = w :: ws /\
                (o_word_wrap o = false -> ws = []) /\
-               body_ok_b (o_word_wrap o) false l cw (w :: ws) = true.
-Proof.
-  unfold wrapped_lines, body_ok_b. destruct (o_word_wrap o) eqn:Eww.
-  - pose proof (HWrap l cw (negb (o_transparent o)) Hcw) as H.
-    destruct (wrapf l cw (negb (o_transparent o))) as [|w ws] eqn:E.
-    + unfold wrap_ok_b in H. rewrite andb_false_r in H. discriminate.
-    + exists w, ws. repeat split; [discriminate|exact H].
-  - eexists _, []. repeat split. apply crop_line_ok. exact Hcw.
-Qed.
+               body_ok_b (o_word_wrap o) (o_indent_guides o) e cw (w :: ws) = true.
 
-Lemma render_numbered_head_not_cont lines k :
+Lemma render_numbered_head_not_cont exp1 lines k :
+  Forall2 line_shows exp1 lines ->
   0 <= k -> (lines <> [] -> k + zlen lines - 1 <= M) ->
   match render_numbered wrapf o ncw cw lines k with [] => True | r :: _ => is_cont gw r = false end.
 Proof.
-  unfold ncw, gw. intros Hk HkM. destruct lines as [|l lines]; [exact Logic.I|].
-  cbn [render_numbered]. destruct (wrapped_ok l) as [w [ws [E _]]]. rewrite E.
+  unfold ncw, gw. intros HF Hk HkM. destruct HF as [|e l exp1 lines [w [ws [E _]]] HF]; [exact Logic.I|].
+  cbn [render_numbered]. rewrite E.
   cbn [app]. unfold is_cont.
   assert (HkM' : 0 <= k <= M).
   { specialize (HkM ltac:(discriminate)). unfold zlen in HkM. simpl length in HkM. lia. }
@@ -273,16 +264,16 @@ Proof.
   apply gutter_not_blank. lia.
 Qed.
 
-Theorem check_numbered_ok : forall lines exp k,
-  pfx_blank lines exp -> 0 <= k -> (lines <> [] -> k + zlen lines - 1 <= M) ->
-  check_lines o gw cw true true true exp k (render_numbered wrapf o ncw cw lines k) = true.
+Theorem check_numbered_gen : forall exp1 lines, Forall2 line_shows exp1 lines -> forall rest k,
+  forallb blank rest = true -> 0 <= k -> (lines <> [] -> k + zlen lines - 1 <= M) ->
+  check_lines o gw cw true true true (exp1 ++ rest) k (render_numbered wrapf o ncw cw lines k) = true.
 Proof.
   unfold ncw, gw.
-  induction lines as [|l lines IH]; intros exp k [rest [-> Hrest]] Hk HkM.
+  induction 1 as [|e l exp1 lines Hl HF IH]; intros rest k Hrest Hk HkM.
   - cbn [app render_numbered]. destruct rest as [|e rest]; [reflexivity|].
     cbn [check_lines]. exact Hrest.
   - cbn [app check_lines render_numbered].
-    destruct (wrapped_ok l) as [w [ws [E [Hws Hbody]]]]. rewrite E.
+    destruct Hl as [w [ws [E [Hws Hbody]]]]. rewrite E.
     cbn [app].
     specialize (HkM ltac:(discriminate)).
     assert (HkM' : 0 <= k <= M).
@@ -290,7 +281,7 @@ Proof.
     assert (Hz : zlen (l :: lines) = zlen lines + 1).
     { unfold zlen. simpl length. lia. }
     rewrite (span_cont_conts M).
-    2:{ apply render_numbered_head_not_cont; [lia|intros _; lia]. }
+    2:{ apply (render_numbered_head_not_cont exp1); [exact HF|lia|intros _; lia]. }
     repeat (apply andb_true_iff; split).
     + unfold is_cont. rewrite (gut_of_prefix M) by (apply gutter_len; assumption).
       rewrite gutter_not_blank by lia. reflexivity.
@@ -302,8 +293,8 @@ Proof.
       rewrite Hmark, str_eqb_refl. reflexivity.
     + destruct (o_word_wrap o); [reflexivity|]. rewrite Hws by reflexivity. reflexivity.
     + rewrite (body_of_prefix M) by (apply gutter_len; assumption).
-      rewrite (map_body_conts M). rewrite Hguides. rewrite Hbody. reflexivity.
-    + apply IH; [exists rest; split; [reflexivity|exact Hrest]|lia|intros _; lia].
+      rewrite (map_body_conts M). rewrite Hbody. reflexivity.
+    + apply IH; [exact Hrest|lia|intros _; lia].
 Qed.
 End Numbered.
 
